@@ -135,20 +135,33 @@ def absR (v : Rat) : Rat := if v < 0 then -v else v
 /-- value returned by the driver's cosine oracle for an argument the table does not cover (no cosine is 2) -/
 def cosMiss : Rat := 2
 
-/-- The cosine oracle of the driver, from the table the harness recorded on this run: entry `(f, i, v)` holds
-    `v[t] = cos(2π(f·t + i/p))`, i.e. the value of `cosTurn` at the point `f·t + i/p`.  `cosTurn x` is the value at a
-    recorded point within `xtol` of `x` (the model computes the frequency ladder in exact rationals, the code in
-    floats: the points differ by rounding). -/
-def cosTurnOf (xtol : Rat) (p : Nat) (tbl : List (Rat × Nat × Sig)) : Rat → Rat := fun x =>
-  let hit := tbl.findSome? fun e =>
-    let f := e.1
+/-- The recorded cosine table as points of the oracle: entry `(f, i, v)` holds `v[t] = cos(2π(f·t + i/p))`, i.e. the
+    value of `cosTurn` at the point `f·t + i/p`.  Sorted by argument. -/
+def cosPoints (p : Nat) (tbl : List (Rat × Nat × Sig)) : Array (Rat × Rat) :=
+  let pts : Array (Rat × Rat) := tbl.foldl (fun acc e =>
     let ph := maskPhase p e.2.1
-    if f = 0 then (if absR (ph - x) ≤ xtol then e.2.2[0]? else none)
-    else
-      let t := ((x - ph) / f + 1 / 2).floor          -- nearest sample index
-      if t < 0 then none
-      else if absR (f * (t.toNat : Rat) + ph - x) ≤ xtol then e.2.2[t.toNat]? else none
-  hit.getD cosMiss
+    e.2.2.zipIdx.foldl (fun acc (vt : Rat × Nat) => acc.push (e.1 * (vt.2 : Rat) + ph, vt.1)) acc) #[]
+  pts.qsort (fun a b => a.1 < b.1)
+
+/-- smallest index whose argument is ≥ `y` (binary search on the sorted points) -/
+def lowerBound (pts : Array (Rat × Rat)) (y : Rat) : Nat → Nat → Nat → Nat
+  | 0, lo, _ => lo
+  | fuel + 1, lo, hi =>
+    if lo < hi then
+      let mid := (lo + hi) / 2
+      match pts[mid]? with
+      | some e => if e.1 < y then lowerBound pts y fuel (mid + 1) hi else lowerBound pts y fuel lo mid
+      | none => lo
+    else lo
+
+/-- The cosine oracle of the driver: `cosTurn x` is the recorded value at a point within `xtol` of `x` (the model
+    computes the frequency ladder in exact rationals, the code in floats: the points differ by rounding; `xtol = 0`
+    where the frequency is given) — a single function of the argument, whatever mask asks. -/
+def cosLookup (xtol : Rat) (pts : Array (Rat × Rat)) (x : Rat) : Rat :=
+  let k := lowerBound pts (x - xtol) (pts.size + 1) 0 pts.size
+  match pts[k]? with
+  | some e => if e.1 ≤ x + xtol then e.2 else cosMiss
+  | none => cosMiss
 
 /-- does the table hold the masks of frequency `f` (within `ftol`) for all `p` phases on `n` samples? -/
 def coversFreq (ftol : Rat) (tbl : List (Rat × Nat × Sig)) (n p : Nat) (f : Rat) : Bool :=
@@ -211,7 +224,7 @@ def handle (o : Op) : Option String :=
       let some tbl := parseX o.vecs (1 + p) p | return "bad-op"
       if p = 0 then return "err ValueError"
       if cosv.any (fun m => m.length ≠ x.length) then return "bad-op"
-      let cosTurn := cosTurnOf 0 p ((List.range p).zip cosv |>.map fun (i, v) => (z, i, v))
+      let cosTurn := cosLookup 0 (cosPoints p ((List.range p).zip cosv |>.map fun (i, v) => (z, i, v)))
       let mask := waveMask cosTurn x.length z amp p
       if (List.range p).any (fun i => (unitOf cosTurn x.length z p i).contains cosMiss) then
         return "oracle-desync cos-table-misses-a-point"
@@ -279,7 +292,7 @@ def handle (o : Op) : Option String :=
       let X := lookupTbl tol xs (([] : Sig), false)
       let std := lookupTbl tol stds (-1)
       -- the masks are the model's own waveform over the recorded cosine values
-      let unit := unitOf (cosTurnOf ftol p units) x.length
+      let unit := unitOf (cosLookup ftol (cosPoints p units)) x.length
       let cfg : Cfg := { mode, amp, p, thresh }
       match maskSift (rotSchedule p rot) X unit std cfg fsrc cap x with
       | .error e => return s!"err {e.toString}"
